@@ -24,6 +24,11 @@ const (
 	OpRFB = "RFB" // ReadFrom(bytes.Reader with N bytes)
 	OpRFF = "RFF" // ReadFrom(*os.File positioned so that N bytes remain)
 	OpRFL = "RFL" // ReadFrom(&io.LimitedReader{R: *os.File, N: N}) with more than N bytes remaining
+	// OpRFX is the general file segment: ReadFrom(&io.LimitedReader{R: *os.File, N: N}) with the file
+	// positioned at offset Off, for any N >= 0 and any 0 <= Off <= FileLen (io.CopyN(w, f, N) after a
+	// Seek, the way byte ranges of a file are served). It contributes min(N, FileLen-Off) bytes,
+	// the bytes Off.. of the pattern file - possibly none.
+	OpRFX = "RFX"
 )
 
 // Connection kinds (what the response writer finds behind Parser.Conn). The kind only matters
@@ -50,12 +55,36 @@ type Op struct {
 	// Sym records how N was chosen (informational): "T65536" = computed from a probe run so that
 	// the internal buffer lands at 65536 bytes, "fill" = the rest of the declared Content-Length.
 	Sym string `json:"sym,omitempty"`
+	// Off is the file offset of an OpRFX segment.
+	Off int `json:"off,omitempty"`
+}
+
+// Count is the number of body bytes a well-behaved writer sends for the operation (0 for
+// operations that are not body operations).
+func (o Op) Count() int {
+	switch o.K {
+	case OpW, OpWS, OpRFB, OpRFF, OpRFL:
+		return o.N
+	case OpRFX:
+		c := FileLen - o.Off
+		if o.N < c {
+			c = o.N
+		}
+		if c < 0 {
+			c = 0
+		}
+		return c
+	}
+	return 0
 }
 
 func (o Op) String() string {
 	switch o.K {
 	case OpCT, OpTRD, OpTR, OpTV, OpTE, OpF:
 		return o.K
+	}
+	if o.K == OpRFX {
+		return fmt.Sprintf("RFX(limit=%d@%d:%s)", o.N, o.Off, o.Sym)
 	}
 	if o.Sym != "" {
 		return fmt.Sprintf("%s(%d:%s)", o.K, o.N, o.Sym)
@@ -81,6 +110,24 @@ type Program struct {
 	Version int    `json:"version"`
 	Conn    string `json:"conn,omitempty"` // "" = ConnPlain
 	Ops     []Op   `json:"ops"`
+	// Next: a second request (NextRequest) follows the first one on the same connection, in the
+	// same read; its handler answers with a fixed small response. Whatever the first response put on
+	// the wire beyond its own framing precedes - and corrupts - the second one. Only meaningful on
+	// the keep-alive request versions.
+	Next bool `json:"next,omitempty"`
+}
+
+// The pipelined follow-up request and what its handler answers.
+const (
+	NextPath    = "/next"
+	NextRequest = "GET /next HTTP/1.1\r\nHost: verif\r\n\r\n"
+	NextHeader  = "X-Verif-Next"
+	NextBody    = "next"
+)
+
+// With returns the program with other operations (version, connection kind, pipelining kept).
+func (p Program) With(ops []Op) Program {
+	return Program{Version: p.Version, Conn: p.Conn, Next: p.Next, Ops: ops}
 }
 
 func (p Program) String() string {
@@ -88,6 +135,9 @@ func (p Program) String() string {
 	sb.WriteString(Versions[p.Version].Name)
 	if p.Conn != "" && p.Conn != ConnPlain {
 		sb.WriteString("/" + p.Conn)
+	}
+	if p.Next {
+		sb.WriteString("+next")
 	}
 	sb.WriteString(": ")
 	for i, o := range p.Ops {
@@ -111,7 +161,7 @@ func (p Program) Shape() string {
 // HasFileOp reports whether the program reads from a file.
 func (p Program) HasFileOp() bool {
 	for _, o := range p.Ops {
-		if o.K == OpRFF || o.K == OpRFL {
+		if o.K == OpRFF || o.K == OpRFL || o.K == OpRFX {
 			return true
 		}
 	}
